@@ -638,6 +638,35 @@ def addr_enc_e164(s: str) -> bool:
     return hx.check((s,), obs, (b"\x00\x08" + bytes(ord(ch) for ch in s), (8, s)), "E.164 address: family 8 + digits")
 
 
+E164_POOL = ["0", "9", "A", " ", "+", "\u00f6", "\u07ff", "\u0800", "\uff14", "\uffff", "\U00010000", "\U0010ffff"]
+
+
+def addr_enc_text(n: int, i0: int, i1: int, i2: int, i3: int) -> bool:
+    """
+    pre: 1 <= n <= P["maxchars"] and all(0 <= i < len(E164_POOL) for i in (i0, i1, i2, i3))
+    pre: (n >= 2 or i1 == 0) and (n >= 3 or i2 == 0) and (n >= 4 or i3 == 0)
+    post: _
+    """
+    hx.begin()
+    # any text without '.' and ':' is an address of family 8 (E.164) whose data is its UTF-8 encoding: characters of every
+    # UTF-8 length class (the octet count differs from the character count)
+    nn = hx.concretize_range(n, 1, 5)
+    idx = [hx.concretize_range(i, 0, len(E164_POOL)) for i in (i0, i1, i2, i3)][:nn]
+    txt = "".join(E164_POOL[i] for i in idx)
+    inputs = (n, i0, i1, i2, i3)
+    try:
+        with hx.untraced():               # every input is fixed above: the codec runs natively on the concrete text
+            a = AvpAddress(257)
+            a.value = txt
+            whole = a.as_bytes()
+            back = Avp.from_bytes(whole).value
+            obs = (a.payload, back, len(whole))
+            data = b"\x00\x08" + ref_utf8(txt)
+    except Exception as e:
+        return hx.fail(inputs, "raised " + type(e).__name__)
+    return hx.check(inputs, obs, (data, (8, txt), 8 + len(data) + (-len(data)) % 4), "text address: family 8 + UTF-8 octets, AVP length counts octets, decodes back to the text")
+
+
 def addr_reject(kind: int) -> bool:
     """
     pre: 0 <= kind <= 3
@@ -1132,6 +1161,8 @@ def specs(tier, seed, carve):
                         bound="well-formed Address payloads of family %s (IP content realised at inet_ntop)" % (fam if fam >= 0 else "other (all 65533)")))
     out.append(dict(id="addr_enc_v4", fn="addr_enc_v4", params={}, timeout=200, bound="9x9x2x2 IPv4 texts from boundary octets (content realised at inet_pton)"))
     out.append(dict(id="addr_enc_v6", fn="addr_enc_v6", params={}, timeout=60, bound="8 IPv6 texts (compressed, full, v4-mapped, all-ones)"))
+    out.append(dict(id="addr_enc_text", fn="addr_enc_text", params={"maxchars": 3 if q else 4}, timeout=900 if q else 3000,
+                    bound="every text of 1..3 (thorough: 4) characters from a pool of 12 (digits, letters, space, '+', and the first/last code point of every UTF-8 length class)"))
     out.append(dict(id="addr_enc_e164", fn="addr_enc_e164", params={"maxchars": 2 if q else 3}, timeout=200 if q else 900, bound="every digit string of 1..%d chars" % (2 if q else 3)))
     out.append(dict(id="addr_reject", fn="addr_reject", params={}, timeout=30, bound="4 malformed texts"))
     out.append(dict(id="float_rt/32", fn="float_rt", params={"ebits": 8, "mbits": 23}, timeout=120, bound="2 signs x 6 exponents x 5 mantissas: +-0, denormal, normal, max, inf, quiet NaN (class representatives)"))
